@@ -415,3 +415,19 @@ _GEN6 = ("An option of a call (a parameter with a True / False default) is never
          "assigned from a method through any alias of the class (self.__class__, type(self)).")
 for _p in CHECKS:
     CHECKS[_p]["text"] = (CHECKS[_p]["text"] + " " + ADDED6.get(_p, "")).strip() + " " + _GEN6
+
+# round 7
+ADDED7 = {
+    "C01": "A container member comes back as the parse() result (clause of C03).",
+    "C06": "No value-changing decoder hook at any decoding site (clause of C01).",
+    "C07": "The identifier helpers hand back the caller's spelling of a marking reference / language tag (provenance); "
+           "object-level add builds a set.",
+    "C10": "The equality operator is known by its token type, never by its text; the groups of the quoted path step reach the "
+           "list component in order; the empty binary constant is refused.",
+    "C12": "Non-string type / id filter values are exempt from directory pruning (exemption tests evaluated on sample filters).",
+    "C16": "find() results in the number formatter are compared with 0 or -1 only.",
+    "C17": "Constant positions of raw input stand under a length test; the decoder's RecursionError is converted.",
+    "C18": "Every endpoint filter of relationships() names the object's id.",
+}
+for _p in CHECKS:
+    CHECKS[_p]["text"] = (CHECKS[_p]["text"] + " " + ADDED7.get(_p, "")).strip()
